@@ -56,6 +56,11 @@ func scalarN(v reflect.Value) *big.Int {
 	case reflect.Int64, reflect.Int:
 		return new(big.Int).SetUint64(uint64(v.Int()))
 	case reflect.Float32:
+		// not through v.Float(): widening to float64 and back turns a signalling NaN into a quiet one, which
+		// would misreport the stored bits
+		if f, ok := v.Interface().(float32); ok {
+			return new(big.Int).SetUint64(uint64(math.Float32bits(f)))
+		}
 		return new(big.Int).SetUint64(uint64(math.Float32bits(float32(v.Float()))))
 	case reflect.Float64:
 		return new(big.Int).SetUint64(math.Float64bits(v.Float()))
